@@ -1,7 +1,16 @@
 package main
 
-// Generator `nativetable` -> <out>/NativeTable.lean (namespace Gojq.Generated.NativeTable):
-// the `internalFuncs` literal of func.go's init(): name, arity mask, iter flag, callee.
+// Generator `nativetable` (owner: C03): Generated/NativeTable.lean
+//
+//   table : List Entry   — one entry per key of the `internalFuncs` composite literal in the
+//                          `init` of func.go: name, arity bit mask, iter flag, the constructor
+//                          used (`argFunc0` … `mathFunc3`, `literal`), the Go identifier of the
+//                          callee (`funcLength`, `math.Sin`, "" for `nil` = handled by the
+//                          compiler) and, for mathFunc*, the name passed for error messages.
+//
+// Extracted with go/ast from the working tree's func.go and cross-checked against the table of
+// the BUILT package (gojq.VerifNatives(): same names, masks, iter flags) — a disagreement means the extraction no longer understands the source and is an
+// error, not a stale pass. Sorted by name. Consumed by Props/C03 (`native_table_covered`), C19.
 //
 // Handled entry forms (anything else fails generation):
 //	"name": argFuncN(f | nil)                 N = 0..3   mask 1<<N
@@ -14,65 +23,105 @@ import (
 	"go/ast"
 	"go/parser"
 	"go/token"
-	"os"
 	"path/filepath"
+	"sort"
 	"strconv"
 	"strings"
+
+	"github.com/itchyny/gojq"
 )
 
 func init() { generators["nativetable"] = genNativeTable }
 
-func exprText(e ast.Expr) (string, error) {
-	switch x := e.(type) {
+type nativeEntry struct {
+	name    string
+	mask    int
+	iter    bool
+	ctor    string
+	callee  string
+	errName string
+}
+
+func ntExprString(e ast.Expr) (string, error) {
+	switch e := e.(type) {
 	case *ast.Ident:
-		return x.Name, nil
+		return e.Name, nil
 	case *ast.SelectorExpr:
-		l, err := exprText(x.X)
-		return l + "." + x.Sel.Name, err
+		x, err := ntExprString(e.X)
+		if err != nil {
+			return "", err
+		}
+		return x + "." + e.Sel.Name, nil
 	}
-	return "", fmt.Errorf("callee expression %T is outside the handled fragment", e)
+	return "", fmt.Errorf("callee is neither an identifier nor a selector: %T", e)
 }
 
-func maskOf(e ast.Expr) (int, error) {
-	switch x := e.(type) {
+func ntMaskExpr(e ast.Expr) (int, error) {
+	switch e := e.(type) {
 	case *ast.Ident:
-		if strings.HasPrefix(x.Name, "argcount") {
-			k, err := strconv.Atoi(x.Name[len("argcount"):])
-			if err == nil && k >= 0 && k <= 30 {
-				return 1 << k, nil
-			}
+		switch e.Name {
+		case "argcount0":
+			return 1, nil
+		case "argcount1":
+			return 2, nil
+		case "argcount2":
+			return 4, nil
+		case "argcount3":
+			return 8, nil
 		}
+		return 0, fmt.Errorf("unknown arity constant %s", e.Name)
 	case *ast.BinaryExpr:
-		if x.Op == token.OR {
-			l, err := maskOf(x.X)
-			if err != nil {
-				return 0, err
-			}
-			r, err := maskOf(x.Y)
-			return l | r, err
+		if e.Op != token.OR {
+			return 0, fmt.Errorf("arity mask uses operator %s", e.Op)
 		}
+		l, err := ntMaskExpr(e.X)
+		if err != nil {
+			return 0, err
+		}
+		r, err := ntMaskExpr(e.Y)
+		if err != nil {
+			return 0, err
+		}
+		return l | r, nil
 	case *ast.ParenExpr:
-		return maskOf(x.X)
+		return ntMaskExpr(e.X)
 	}
-	return 0, fmt.Errorf("arity mask expression is outside the handled fragment")
+	return 0, fmt.Errorf("arity mask expression %T not understood", e)
 }
 
-// checkArgcountConsts verifies `argcountK = 1 << iota` (so that maskOf's reading is right).
-func checkArgcountConsts(f *ast.File) error {
+var ntCtorMask = map[string]int{"argFunc0": 1, "argFunc1": 2, "argFunc2": 4, "argFunc3": 8, "mathFunc": 1, "mathFunc2": 4, "mathFunc3": 8}
+
+func ntCalleeOf(e ast.Expr) (string, error) {
+	if id, ok := e.(*ast.Ident); ok && id.Name == "nil" {
+		return "", nil
+	}
+	return ntExprString(e)
+}
+
+// ntCheckArgcountConsts verifies `argcount0 = 1 << iota; argcount1; argcount2; argcount3`
+// (so that ntMaskExpr's reading of the constants is right).
+func ntCheckArgcountConsts(f *ast.File) error {
 	for _, d := range f.Decls {
 		gd, ok := d.(*ast.GenDecl)
-		if !ok || gd.Tok != token.CONST {
+		if !ok || gd.Tok != token.CONST || len(gd.Specs) == 0 {
 			continue
+		}
+		first, ok := gd.Specs[0].(*ast.ValueSpec)
+		if !ok || len(first.Names) != 1 || first.Names[0].Name != "argcount0" {
+			continue
+		}
+		if len(gd.Specs) != 4 {
+			return fmt.Errorf("the argcount const block has %d entries, expected 4", len(gd.Specs))
 		}
 		for i, s := range gd.Specs {
 			vs := s.(*ast.ValueSpec)
-			if len(vs.Names) != 1 || !strings.HasPrefix(vs.Names[0].Name, "argcount") {
-				break
-			}
-			if vs.Names[0].Name != fmt.Sprintf("argcount%d", i) {
-				return fmt.Errorf("constant %s is not argcount%d", vs.Names[0].Name, i)
+			if len(vs.Names) != 1 || vs.Names[0].Name != fmt.Sprintf("argcount%d", i) {
+				return fmt.Errorf("constant #%d of the argcount block is not argcount%d", i, i)
 			}
 			if i == 0 {
+				if len(vs.Values) != 1 {
+					return fmt.Errorf("argcount0 is not `1 << iota`")
+				}
 				be, ok := vs.Values[0].(*ast.BinaryExpr)
 				if !ok || be.Op != token.SHL {
 					return fmt.Errorf("argcount0 is not `1 << iota`")
@@ -85,22 +134,20 @@ func checkArgcountConsts(f *ast.File) error {
 			} else if len(vs.Values) != 0 {
 				return fmt.Errorf("%s has its own value", vs.Names[0].Name)
 			}
-			if i == len(gd.Specs)-1 {
-				return nil
-			}
 		}
+		return nil
 	}
 	return fmt.Errorf("const block argcount0… not found")
 }
 
-func genNativeTable(repo, out string) error {
+func extractNativeTable(repo string) ([]nativeEntry, error) {
 	fset := token.NewFileSet()
 	f, err := parser.ParseFile(fset, filepath.Join(repo, "func.go"), nil, 0)
 	if err != nil {
-		return err
+		return nil, err
 	}
-	if err := checkArgcountConsts(f); err != nil {
-		return err
+	if err := ntCheckArgcountConsts(f); err != nil {
+		return nil, err
 	}
 	var lit *ast.CompositeLit
 	for _, d := range f.Decls {
@@ -114,24 +161,25 @@ func genNativeTable(repo, out string) error {
 				continue
 			}
 			if id, ok := as.Lhs[0].(*ast.Ident); ok && id.Name == "internalFuncs" {
-				if cl, ok := as.Rhs[0].(*ast.CompositeLit); ok {
-					if lit != nil {
-						return fmt.Errorf("internalFuncs is assigned more than once")
-					}
-					lit = cl
+				cl, ok := as.Rhs[0].(*ast.CompositeLit)
+				if !ok {
+					return nil, fmt.Errorf("internalFuncs is not assigned a composite literal")
 				}
+				if lit != nil {
+					return nil, fmt.Errorf("internalFuncs is assigned twice")
+				}
+				lit = cl
 			}
 		}
 	}
 	if lit == nil {
-		return fmt.Errorf("`internalFuncs = map[string]function{…}` not found in func.go init()")
+		return nil, fmt.Errorf("no `internalFuncs = map[string]function{…}` in an init of func.go")
 	}
-	// any other write to internalFuncs makes the literal incomplete
+	// any other write to internalFuncs would make the literal incomplete
 	writes := 0
 	ast.Inspect(f, func(n ast.Node) bool {
-		switch x := n.(type) {
-		case *ast.AssignStmt:
-			for _, l := range x.Lhs {
+		if as, ok := n.(*ast.AssignStmt); ok {
+			for _, l := range as.Lhs {
 				switch t := l.(type) {
 				case *ast.Ident:
 					if t.Name == "internalFuncs" {
@@ -147,82 +195,122 @@ func genNativeTable(repo, out string) error {
 		return true
 	})
 	if writes != 1 {
-		return fmt.Errorf("internalFuncs is written %d times in func.go; only the literal is handled", writes)
+		return nil, fmt.Errorf("internalFuncs is written %d times in func.go; only the literal is handled", writes)
 	}
-	var sb strings.Builder
-	sb.WriteString("/- GENERATED by `verifgen nativetable` from func.go init() — do not edit. -/\n")
-	sb.WriteString("namespace Gojq.Generated.NativeTable\n\n")
-	sb.WriteString("/-- (name, arity mask, iter, callee) in source order -/\n")
-	sb.WriteString("def table : List (String × Nat × Bool × String) := [")
-	for i, el := range lit.Elts {
+	var out []nativeEntry
+	seen := map[string]bool{}
+	for _, el := range lit.Elts {
 		kv, ok := el.(*ast.KeyValueExpr)
 		if !ok {
-			return fmt.Errorf("entry %d is not key: value", i)
+			return nil, fmt.Errorf("internalFuncs element is not key: value")
 		}
 		kl, ok := kv.Key.(*ast.BasicLit)
 		if !ok || kl.Kind != token.STRING {
-			return fmt.Errorf("entry %d: key is not a string literal", i)
+			return nil, fmt.Errorf("internalFuncs key is not a string literal")
 		}
-		name, _ := strconv.Unquote(kl.Value)
-		var mask int
-		var iter bool
-		var callee string
+		name, err := strconv.Unquote(kl.Value)
+		if err != nil {
+			return nil, err
+		}
+		if seen[name] {
+			return nil, fmt.Errorf("duplicate key %q", name)
+		}
+		seen[name] = true
+		e := nativeEntry{name: name}
 		switch v := kv.Value.(type) {
 		case *ast.CallExpr:
 			fn, ok := v.Fun.(*ast.Ident)
 			if !ok {
-				return fmt.Errorf("%s: constructor is outside the handled fragment", name)
+				return nil, fmt.Errorf("%s: constructor is not an identifier", name)
 			}
-			switch fn.Name {
-			case "argFunc0", "argFunc1", "argFunc2", "argFunc3":
-				if len(v.Args) != 1 {
-					return fmt.Errorf("%s: %s with %d arguments", name, fn.Name, len(v.Args))
+			m, ok := ntCtorMask[fn.Name]
+			if !ok {
+				return nil, fmt.Errorf("%s: unknown constructor %s", name, fn.Name)
+			}
+			e.ctor, e.mask = fn.Name, m
+			switch {
+			case strings.HasPrefix(fn.Name, "argFunc") && len(v.Args) == 1:
+				if e.callee, err = ntCalleeOf(v.Args[0]); err != nil {
+					return nil, fmt.Errorf("%s: %v", name, err)
 				}
-				mask = 1 << int(fn.Name[7]-'0')
-				if callee, err = exprText(v.Args[0]); err != nil {
-					return fmt.Errorf("%s: %v", name, err)
-				}
-			case "mathFunc", "mathFunc2", "mathFunc3":
-				if len(v.Args) != 2 {
-					return fmt.Errorf("%s: %s with %d arguments", name, fn.Name, len(v.Args))
-				}
+			case strings.HasPrefix(fn.Name, "mathFunc") && len(v.Args) == 2:
 				nl, ok := v.Args[0].(*ast.BasicLit)
-				if !ok || nl.Value != strconv.Quote(name) {
-					return fmt.Errorf("%s: %s names another function", name, fn.Name)
+				if !ok || nl.Kind != token.STRING {
+					return nil, fmt.Errorf("%s: first argument of %s is not a string literal", name, fn.Name)
 				}
-				mask = map[string]int{"mathFunc": 1, "mathFunc2": 1 << 2, "mathFunc3": 1 << 3}[fn.Name]
-				if callee, err = exprText(v.Args[1]); err != nil {
-					return fmt.Errorf("%s: %v", name, err)
+				if e.errName, err = strconv.Unquote(nl.Value); err != nil {
+					return nil, err
+				}
+				if e.callee, err = ntCalleeOf(v.Args[1]); err != nil {
+					return nil, fmt.Errorf("%s: %v", name, err)
 				}
 			default:
-				return fmt.Errorf("%s: constructor %s is outside the handled fragment", name, fn.Name)
+				return nil, fmt.Errorf("%s: %s called with %d arguments", name, fn.Name, len(v.Args))
 			}
 		case *ast.CompositeLit:
 			if len(v.Elts) != 3 {
-				return fmt.Errorf("%s: literal with %d fields", name, len(v.Elts))
+				return nil, fmt.Errorf("%s: function literal with %d fields", name, len(v.Elts))
 			}
-			if mask, err = maskOf(v.Elts[0]); err != nil {
-				return fmt.Errorf("%s: %v", name, err)
+			e.ctor = "literal"
+			if e.mask, err = ntMaskExpr(v.Elts[0]); err != nil {
+				return nil, fmt.Errorf("%s: %v", name, err)
 			}
-			b, ok := v.Elts[1].(*ast.Ident)
-			if !ok || b.Name != "true" && b.Name != "false" {
-				return fmt.Errorf("%s: iter flag is not a boolean literal", name)
+			id, ok := v.Elts[1].(*ast.Ident)
+			if !ok || id.Name != "true" && id.Name != "false" {
+				return nil, fmt.Errorf("%s: iter flag is not a boolean literal", name)
 			}
-			iter = b.Name == "true"
-			if callee, err = exprText(v.Elts[2]); err != nil {
-				return fmt.Errorf("%s: %v", name, err)
+			e.iter = id.Name == "true"
+			if e.callee, err = ntCalleeOf(v.Elts[2]); err != nil {
+				return nil, fmt.Errorf("%s: %v", name, err)
 			}
 		default:
-			return fmt.Errorf("%s: value %T is outside the handled fragment", name, kv.Value)
+			return nil, fmt.Errorf("%s: value expression %T not understood", name, kv.Value)
 		}
-		if i > 0 {
-			sb.WriteString(",")
-		}
-		fmt.Fprintf(&sb, "\n  (%s, %d, %v, %s)", strconv.Quote(name), mask, iter, strconv.Quote(callee))
+		out = append(out, e)
 	}
-	sb.WriteString("]\n\nend Gojq.Generated.NativeTable\n")
-	if err := os.MkdirAll(out, 0o755); err != nil {
+	sort.Slice(out, func(i, j int) bool { return out[i].name < out[j].name })
+	return out, nil
+}
+
+func genNativeTable(repo, out string) error {
+	es, err := extractNativeTable(repo)
+	if err != nil {
 		return err
 	}
+	// cross-check with the table of the built package
+	built := gojq.VerifNatives()
+	if len(built) != len(es) {
+		return fmt.Errorf("func.go lists %d natives, the built package has %d", len(es), len(built))
+	}
+	for _, e := range es {
+		b, ok := built[e.name]
+		if !ok {
+			return fmt.Errorf("native %q of func.go is not in the built table", e.name)
+		}
+		// (argFuncN(nil) wraps the nil callee in a non-nil closure, so nil-ness is not comparable)
+		if b.Argcount != e.mask || b.Iter != e.iter {
+			return fmt.Errorf("native %q: extracted (mask %d, iter %v, callee %q) but built (mask %d, iter %v)",
+				e.name, e.mask, e.iter, e.callee, b.Argcount, b.Iter)
+		}
+	}
+	var sb strings.Builder
+	sb.WriteString("-- GENERATED by harness/cmd/verifgen (nativetable) from /repo/func.go — do not edit\n")
+	sb.WriteString("namespace Gojq.Generated.NativeTable\n\n")
+	sb.WriteString("/-- one key of `internalFuncs`: `argcount` is the arity bit mask (bit n = accepts n arguments),\n")
+	sb.WriteString("    `callee = \"\"` is a nil callback (the compiler handles the name itself),\n")
+	sb.WriteString("    `errName` the name mathFunc* put into their type errors -/\n")
+	sb.WriteString("structure Entry where\n  name : String\n  argcount : Nat\n  iter : Bool\n  ctor : String\n  callee : String\n  errName : String\n  deriving Repr, DecidableEq\n\n")
+	sb.WriteString("def table : List Entry := [\n")
+	for i, e := range es {
+		sep := ","
+		if i == len(es)-1 {
+			sep = ""
+		}
+		fmt.Fprintf(&sb, "  ⟨%q, %d, %v, %q, %q, %q⟩%s\n", e.name, e.mask, e.iter, e.ctor, e.callee, e.errName, sep)
+	}
+	sb.WriteString("]\n\n")
+	sb.WriteString("/-- (name, arity) pairs the table accepts, in table order -/\n")
+	sb.WriteString("def arities : List (String × Nat) :=\n  table.flatMap fun e => ((List.range 4).filter fun n => (e.argcount / 2 ^ n) % 2 == 1).map fun n => (e.name, n)\n\n")
+	sb.WriteString("end Gojq.Generated.NativeTable\n")
 	return WriteIfChanged(filepath.Join(out, "NativeTable.lean"), []byte(sb.String()))
 }
